@@ -34,6 +34,9 @@ Inductive case :=
     (* end to end: functions as written in the style sheet, the laid-out border box,
        computed transform-origin; has/out = the Transform call the backend received *)
 | CSvg (tr : list trig_entry) (l : list svg_src) (out : T)
+| CSvgDraw (tr : list trig_entry) (l : list svg_src) (has : bool) (out : T)
+    (* end to end: <rect transform="..."> drawn by svg.Parse + Draw; has/out = the Transform call
+       the backend received for the element (svg.go applyTransform: none for an empty list or det = 0) *)
 | CViewbox (p : par) (w h vx vy vw vh : Q) (o1 o2 o3 o4 : Q).
 
 Definition teqb (t u : T) : bool :=
@@ -92,6 +95,12 @@ Definition model_out_ar (ar : arith) (c : case) : list Q :=
       (* draw.go:252-259: nothing is sent when the determinant is 0 *)
       if Qeq_bool (determinant ar m) 0 then [0] else 1 :: tlist m
   | CSvg tbl l _ => tlist (svg_aggregate ar (trig_of tbl) l)
+  | CSvgDraw tbl l _ _ =>
+      match l with
+      | [] => [0]
+      | _ => let m := svg_aggregate ar (trig_of tbl) l in
+             if Qeq_bool (determinant ar m) 0 then [0] else 1 :: tlist m
+      end
   | CViewbox p w h vx vy vw vh _ _ _ _ =>
       let '(a, b, c, d) := viewbox_transform ar p w h vx vy vw vh in [a; b; c; d]
   end.
@@ -103,6 +112,7 @@ Definition impl_out (c : case) : list Q :=
   | CArith _ _ _ r => [r]
   | CMulChain _ out | CMul3 _ _ _ out | COps _ _ out | CCss _ _ out | CSvg _ _ out => tlist out
   | CCssSrc _ _ _ has out => if has then 1 :: tlist out else [0]
+  | CSvgDraw _ _ has out => if has then 1 :: tlist out else [0]
   | CInvert _ ok out => if ok then 1 :: tlist out else [0]
   | CApply _ _ _ ox oy => [ox; oy]
   | CDet _ d => [d]
